@@ -50,7 +50,12 @@ use std::fs;
 use std::io::{self, Read, Seek, SeekFrom, Write};
 use std::mem::size_of;
 use std::path::{Path, PathBuf};
+#[cfg(not(feature = "verif-hooks"))]
 use std::sync::{Arc, RwLock, RwLockReadGuard, RwLockWriteGuard};
+#[cfg(feature = "verif-hooks")]
+use crate::internal::sync::{RwLock, RwLockReadGuard, RwLockWriteGuard};
+#[cfg(feature = "verif-hooks")]
+use std::sync::Arc;
 
 use fnv::FnvHashSet;
 use uuid::Uuid;
@@ -65,6 +70,14 @@ pub use crate::internal::{Entries, Entry, Stream, Version};
 
 #[macro_use]
 mod internal;
+
+/// Verification hooks (lock observer).  Only present with the `verif-hooks`
+/// feature; not part of the public API.
+#[cfg(feature = "verif-hooks")]
+#[doc(hidden)]
+pub mod verif_hooks {
+    pub use crate::internal::sync::{set_observer, Event, EventKind, Observer};
+}
 
 //===========================================================================//
 
